@@ -612,6 +612,16 @@ pub fn scn_bound(o: &Opts, tr: &mut Tr, prop: &str) {
               }
         }
     }
+    // statistics that shift completely in the middle of a long input (every block's code must be
+    // built from that block's own symbol counts): bytes >= 32 first, then random bytes < 32
+    for (n, levels) in if o.thorough { vec![(5_000_000usize, vec![1i32, 2, 6]), (8_000_000, vec![1])] } else { vec![(5_000_000usize, vec![1i32])] } {
+        let mut data: Vec<u8> = Vec::with_capacity(n);
+        for _ in 0..(n * 2 / 5) { data.push(r.gen_range(32..=255)); }
+        while data.len() < n { data.push(r.gen_range(0..32)); }
+        for level in levels {
+            bound_case(tr, prop, "shiftstat", &data, level, 0, 0);
+        }
+    }
     // data sitting just on either side of the block-cut heuristic ("fat": LZ codes * 115/128 >= bytes):
     // incompressible 9-bit literals with a maximal match every `run` bytes, so that blocks are not cut
     // early and grow past the window, where the stored-block fallback no longer applies
